@@ -1,6 +1,12 @@
-/- GENERATED by harness/props/c20_translate.py from pagexml/analysis/text_stats.py
-   (module constants wpl_to_cat / wpl_cat_min / wpl_cat_max / wpl_cat_range, evaluated at run
-   time because they are computed with np.log).  Do not edit: rewritten on every run. -/
+/- GENERATED on every run by harness/props/c20_translate.py from the current /repo working tree.
+   Do not edit: the property theorems are re-checked against what the code says NOW.
+   (1) pagexml/analysis/text_stats.py: module constants wpl_to_cat / wpl_cat_min / wpl_cat_max / wpl_cat_range,
+       evaluated at run time because they are computed with np.log;
+   (2) read with `ast`: pagexml/analysis/stats.py (defaults of get_doc_stats, the arguments with which it reaches
+       _init_doc_stats and text_stats.get_word_cat_stats, DEFAULT_ELEMENTS, `fields` and the bin range of
+       _init_doc_stats), pagexml/analysis/text_stats.py (defaults, dict keys and length loop of get_word_cat_stats, _SMALL and
+       the factor of the score in compute_log_likelihood), pagexml/analysis/layout_stats.py (`prev_point = N` of
+       categorise_line_width / get_boundary_width_ranges). -/
 namespace Pagexml.Generated.C20
 
 /-- `wpl_cat_range` in dict order: (range label, `wpl_cat_min`, `wpl_cat_max`) -/
@@ -23,5 +29,55 @@ def wplToCat : List Nat := [0, 1, 2, 3, 4, 4, 5, 5, 5, 5, 6, 6, 6, 6, 6, 6, 7, 7
 
 /-- index of `wpl_cat_range[max(wpl_cat_range.keys())]` (lines with more words than the table covers) -/
 def wplOverflow : Nat := 10
+
+/-- default `max_word_length` of get_doc_stats -/
+def defaultMaxWordLength : Nat := 30
+
+/-- default `line_bin_width` of get_doc_stats (`range(line_bin_width, max_bin, line_bin_width)` are the boundary
+    points when none are passed) -/
+def defaultLineBinWidth : Int := 300
+
+/-- default `max_bin` of get_doc_stats -/
+def defaultMaxBin : Int := 3000
+
+/-- `word_length_bin_size` with which get_doc_stats reaches _init_doc_stats (the literal passed, else the default) -/
+def initBinSize : Nat := 5
+
+/-- `word_length_bin_size` with which get_doc_stats reaches text_stats.get_word_cat_stats -/
+def wordCatBinSize : Nat := 5
+
+/-- default `max_word_length` of get_word_cat_stats (called directly) -/
+def wordCatDefaultMaxLen : Nat := 30
+
+/-- default `word_length_bin_size` of get_word_cat_stats (called directly) -/
+def wordCatDefaultBinSize : Nat := 5
+
+/-- `N` of `range(word_length_bin_size, max_word_length + N, word_length_bin_size)` in _init_doc_stats -/
+def initBinStopPlus : Nat := 1
+
+/-- `(A, B)` of `for wl in range(A, max_word_length + B)` in get_word_cat_stats -/
+def wordLoop : Nat × Nat := (1, 1)
+
+/-- `DEFAULT_ELEMENTS` of stats.py -/
+def defaultElements : List String := ["lines", "words", "text_regions", "columns", "extra", "pages"]
+
+/-- `fields` of _init_doc_stats (the columns that do not depend on the configuration) -/
+def initFields : List String := ["doc_id", "doc_num", "doc_width", "doc_height", "lines", "words", "text_regions", "columns", "extra", "pages", "num_words", "num_alpha_words", "num_number_words", "num_title_words", "num_non_title_words", "num_stop_words", "num_punctuation_words", "num_oversized_words"]
+
+/-- the keys of the dict display `word_cat_stats = {…}` of get_word_cat_stats (get_doc_stats appends each to the
+    column of that name) -/
+def wordCatKeys : List String := ["num_words", "num_alpha_words", "num_number_words", "num_title_words", "num_non_title_words", "num_stop_words", "num_punctuation_words", "num_oversized_words"]
+
+/-- `prev_point = N` at the start of categorise_line_width -/
+def catWidthStart : Int := 0
+
+/-- `prev_point = N` at the start of get_boundary_width_ranges -/
+def rangesWidthStart : Int := 0
+
+/-- `_SMALL` of text_stats.py as the exact ratio (numerator, denominator) its decimal literal denotes -/
+def small : Nat × Nat := (1, 100000000000000000000)
+
+/-- `N` of `return N * sum_likelihood, …` in compute_log_likelihood -/
+def scoreFactor : Nat := 2
 
 end Pagexml.Generated.C20
